@@ -113,6 +113,8 @@ def gen_case(rng, maxlen=6, fn=None):
         "omit": sorted(k for k in ("gop", "scale", "mode") if rng.random() < 0.25) if fn == 7 else [],
         # pw_align only: this letter is handed over as a BLANK (a legal symbol of a string, a tuple or a list)
         "blank": rng.choice(alpha) if fn == 7 and rng.random() < 0.35 else None,
+        # ... or as a combining mark (a str input must be taken code point by code point, not normalised)
+        "blank_char": rng.choice([" ", " ", "\u0303", "\u0301"]),
     }
     # a keyword that is left out takes the documented default of pw_align; the case records the effective value
     for k, v in (("gop", F(-1)), ("scale", F(1, 2)), ("mode", "global")):
@@ -226,8 +228,9 @@ def run_impl(case):
         from lingpy.align.pairwise import pw_align
         conv = {"str": "".join, "tuple": tuple, "list": list}[case.get("container", "list")]
         bl = case.get("blank")
-        to_b = lambda x: " " if x == bl else x
-        from_b = lambda x: bl if x == " " else x
+        bc = case.get("blank_char", " ")
+        to_b = lambda x: bc if x == bl else x
+        from_b = lambda x: bl if x == bc else x
         unb = lambda part: [from_b(x) for x in part]
         sa, sb = [to_b(x) for x in sa], [to_b(x) for x in sb]
         kw = {"gop": float(case["gop"]), "scale": scale, "mode": mode}
